@@ -509,6 +509,34 @@ def forms_program():
     )
     F.append(
         fn(
+            # the delegate of genyf: it catches what is thrown in, carries on, and has a finally
+            "gensub",
+            ["p"],
+            [
+                ["bind", "s", V],
+                ["try",
+                 [["while", [["try", [["yield", var("s"), "t"], use("t")], [["Exception", None, [["pt"]]]], [], []]]]],
+                 [], [], [["pt"]]],
+                ["ret", var("s")],
+            ],
+        )
+    )
+    F.append(
+        fn(
+            # delegates with ``yield from``: next / send / throw / close all go through to the delegate
+            "genyf",
+            ["p"],
+            [
+                ["bind", "x", V],
+                ["bind", "r", ["yieldfrom_e", ["call", "gensub", [var("p")]]]],
+                use("r"),
+                ["yield", var("x"), None],
+                ["ret", var("r")],
+            ],
+        )
+    )
+    F.append(
+        fn(
             "shadow",
             ["p"],
             [
@@ -549,7 +577,10 @@ def forms_program():
                 ["p"],
                 [["bind", "x", ["add", var("c0"), V]], use("x"), ["ret", var("x")]],
                 free=["c0"],
+                dyn_name=True,
             ),
+            # the same factory called a second time: two function objects, one code object
+            "twins": {"clo2": {"c0": 52}},
         },
         {
             "factory": "_mk_clow",
